@@ -125,7 +125,9 @@ CHECKS = {
         "runs": [
             {"pkg": "internal/spynode", "test": "TestVerif_C01"},
             {"pkg": "internal/spynode", "test": "TestVerif_C01L1"},
+            {"pkg": "internal/spynode", "test": "TestVerif_C01L1", "race": True, "tiers": ["thorough"]},
         ],
+        "race_attrib": [r"^github\.com/tokenized/spynode/internal/(handlers|state|storage|spynode)\."],
     },
     "C02": {
         "level": "exploration",
@@ -190,8 +192,10 @@ CHECKS = {
         "runs": [
             {"pkg": "internal/spynode", "test": "TestVerif_C12"},
             {"pkg": "internal/spynode", "test": "TestVerif_C12L1"},
+            {"pkg": "internal/spynode", "test": "TestVerif_C12L1", "race": True, "tiers": ["thorough"]},
             {"pkg": "internal/spynode", "test": "TestVerif_C12Delay"},
         ],
+        "race_attrib": [r"^github\.com/tokenized/spynode/internal/(handlers|state|storage|spynode)\."],
     },
     "C10": {
         "level": "fault_enumeration",
@@ -205,10 +209,12 @@ CHECKS = {
     "C19": {
         "level": "exploration",
         "technique": "runtime monitoring: the real Node.Run over loopback TCP against a scripted peer with Stop / connection faults injected at generated points; oracle = termination (stable-deadlock signature from goroutine dumps), late-callback flag, persisted-state comparison, re-announcement check; failpoint-style hooks widen the shutdown phases",
-        "level_text": "Each case runs the real node (all its goroutines and sockets) against a scripted TCP peer and requests Stop at one of ten generated points (refused connection, silent peer, header sync, ten outstanding block requests, inside ProcessBlock, consumer exited with a full tx channel, in-sync traffic, between the shutdown phases, reconnect loop, after a resumed connection). The monitor checks that Stop and Run return - a hang is only a violation when two goroutine dumps 3 s apart show the same node goroutines blocked at the same places - that no handler is called after Stop returned, that a fresh node on the storage loads the chain and unconfirmed set the stopped node had, that a peers file exists, and that a re-established connection resumes from the stored tip without announcing a block twice. Exploration: stop points and timings are unbounded.",
+        "level_text": "Each case runs the real node (all its goroutines and sockets) against a scripted TCP peer and requests Stop at one of ten generated points (refused connection, silent peer, header sync, ten outstanding block requests, inside ProcessBlock, consumer exited with a full tx channel, in-sync traffic, between the shutdown phases, reconnect loop, after a resumed connection). The monitor checks that Stop and Run return - a hang is only a violation when two goroutine dumps 3 s apart show the same node goroutines blocked at the same places - that no handler is called after Stop returned, that a fresh node on the storage loads the chain and unconfirmed set the stopped node had, that it loads as many peer addresses as the stopped node knew, and that a re-established connection resumes from the stored tip without announcing a block twice. Exploration: stop points and timings are unbounded.",
         "level_note": "Trusted: the scripted TCP peer (same model as the DS engine), goroutine-dump parsing for the deadlock signature, wall-clock watchdog only leads to 'inconclusive'.",
         "runs": [
             {"pkg": "internal/spynode", "test": "TestVerif_C19", "shards": {"quick": 10, "thorough": 16}},
+            {"pkg": "internal/spynode", "test": "TestVerif_C19", "race": True, "tiers": ["thorough"], "shards": {"thorough": 16}},
         ],
+        "race_attrib": [r"^github\.com/tokenized/spynode/internal/(handlers|state|storage|spynode)\."],
     },
 }
